@@ -62,6 +62,7 @@ Five parts (each counted separately in the evidence):
 """
 from __future__ import annotations
 
+import contextlib
 import itertools
 import json
 import math
@@ -3890,6 +3891,312 @@ def iterations_part(chk, n):
 
 
 # ================================================================================================
+# J. from Sampler.samples / sample_count / probs to the primitive the processor offers and back
+#    (_get_primitive_converter, _create_job, Job._handle_params, the wrappers, LocalJob._get_results)
+# ================================================================================================
+JOB_NAMES = {"samples": "samples", "sample_count": "sample_count", "probs": "probs"}
+
+
+def job_total(res):
+    r = res
+    if hasattr(r, "values") and not isinstance(r, (list, tuple)):
+        return float(sum(r.values()))
+    return len(r)
+
+
+def run_job_case(case):
+    """The job for real: every processor request, every converter call and the result observed."""
+    import functools
+    from perceval.components.processor import Processor
+    from perceval.algorithm import Sampler
+    calls, conv, results = [], [], []
+    holder = {}
+    orig_samples, orig_probs = Processor.samples, Processor.probs
+
+    def spy_samples(self_, max_samples, max_shots=None, progress_callback=None):
+        o = observe_cfg(self_, holder["s"])
+        o["kind"], o["arg_ms"], o["arg_sh"] = "samples", max_samples, max_shots
+        calls.append(o)
+        res = orig_samples(self_, max_samples, max_shots, progress_callback)
+        o["n"] = len(res["results"])
+        return res
+
+    def spy_probs(self_, precision=None, progress_callback=None):
+        o = observe_cfg(self_, holder["s"])
+        o["kind"], o["precision"] = "probs", precision
+        calls.append(o)
+        return orig_probs(self_, precision, progress_callback)
+
+    def wrap(fn):
+        @functools.wraps(fn)
+        def w(res, **kwargs):
+            conv.append({"name": fn.__name__, "kw": dict(kwargs)})
+            out = fn(res, **kwargs)
+            conv[-1]["total"] = job_total(out)
+            return out
+        return w
+
+    mapping = {m: {k: wrap(f) for k, f in d.items()} for m, d in Sampler._METHOD_MAPPING.items()}
+    obs = {}
+    try:
+        p, s = build_iter_target(case)
+        holder["s"] = s
+        ctx = [mock.patch.object(Processor, "samples", spy_samples), mock.patch.object(Processor, "probs", spy_probs),
+               mock.patch.object(Sampler, "_METHOD_MAPPING", mapping)]
+        if case["avail"] is not None:
+            ctx.append(mock.patch.object(Processor, "available_commands", new_callable=mock.PropertyMock,
+                                         return_value=list(case["avail"])))
+        with contextlib.ExitStack() as stack:
+            for c in ctx:
+                stack.enter_context(c)
+            stack.enter_context(watchdog(CALL_TIMEOUT))
+            prim, _cv = s._get_primitive_converter(case["method"])
+            obs["prim"] = prim
+            natural = "probs" if case["kind"] == "probs" else "samples"
+            if prim is not None and prim not in (natural, "sample_count"):
+                obs["not-run"] = True      # the backend cannot answer this primitive: only the choice is compared
+                return obs
+            kw = {}
+            if case["kw"]["ms"]:
+                kw["max_samples"] = case["kw"]["ms"][0]
+            if case["kw"]["sh"]:
+                kw["max_shots"] = case["kw"]["sh"][0]
+            if case["kw"]["other"]:
+                kw["shots"] = 3
+            job = getattr(s, case["method"])
+            try:
+                res = job.execute_sync(*case["args"], **kw)
+                if "results" in res:
+                    results.append((type(res["results"]).__name__, job_total(res["results"])))
+                else:
+                    results += [(type(r["results"]).__name__, job_total(r["results"])) for r in res["results_list"]]
+            finally:
+                if job.is_failed:
+                    obs["raise"] = str(job.status.stop_message).split(":")[0].strip()
+        obs["final"] = observe_cfg(p, s)
+    except Exception as e:  # noqa: BLE001
+        obs.setdefault("raise", type(e).__name__)
+    obs["calls"], obs["conv"], obs["results"] = calls, conv, results
+    return obs
+
+
+def entry_of(kw, key):
+    return [kw[key]] if key in kw else []
+
+
+def judge_job(chk, case, count=True):
+    obs = run_job_case(case)
+    replay = {"part": "job", "case": case}
+    cfg, method = case["cfg"], case["method"]
+    S = cfg["sh"]
+    natural = "probs" if case["kind"] == "probs" else "samples"
+    avail = case["avail"] if case["avail"] is not None else [natural]
+    rep = chk.lean.ask({"op": "job", "avail": avail, "method": method, "cfg": cfg, "its": case["its"],
+                        "args": case["args"], "kw": case["kw"]})
+    if "err" in rep:
+        return ("broken", "job:model-vs-code", f"driver: {rep['err']}", replay)
+    if obs.get("prim") != rep["prim"]:
+        return ("broken", "job:model-vs-code", f"primitive for {method} among {avail}: code {obs.get('prim')}, "
+                                               f"model {rep['prim']}", replay)
+    if obs.get("not-run"):
+        if count:
+            chk.branch("job-primitive-choice-only")
+        return None
+    # ---- DIRECT ORACLE on the real run (no model): the limits are honoured whatever the route
+    if "raise" not in obs:
+        user_ms = case["args"][0] if case["args"] else (case["kw"]["ms"][0] if case["kw"]["ms"] else None)
+        user_sh = S if S is not None else (case["kw"]["sh"][0] if case["kw"]["sh"] else None)
+        its = case["its"] or [None]
+        for k, ((typ, tot), it) in enumerate(zip(obs["results"], its)):
+            ms_k = it["ms"] if it is not None and it["ms"] is not None else user_ms
+            sh_k = it["sh"] if it is not None and it["sh"] is not None else user_sh
+            if method != "probs":
+                lim = [x for x in (ms_k, sh_k) if x is not None]
+                if lim and tot > min(lim):
+                    return ("violation", "job:limits-not-honoured",
+                            f"Sampler(max_shots_per_call={S}).{method}(*{case['args']}, **{case['kw']}) on "
+                            f"{case['kind']}-primitive, result {k}: {tot} samples, limits max_samples={ms_k} "
+                            f"max_shots={sh_k}", replay)
+            elif tot not in (0, 0.0) and abs(tot - 1) > 1e-9:
+                return ("violation", "job:probs-not-normalised", f"probabilities sum to {tot}", replay)
+        for k, o in enumerate(obs["calls"]):
+            if o["kind"] == "samples":
+                it = case["its"][k] if case["its"] else None
+                sh_k = it["sh"] if it is not None and it["sh"] is not None else S
+                if o["arg_sh"] != sh_k or (sh_k is not None and o["n"] > sh_k):
+                    return ("violation", "job:limits-not-honoured",
+                            f"{method} of a Sampler with max_shots_per_call={S}: request {k} reached the processor "
+                            f"with max_shots={o['arg_sh']} (wanted {sh_k}) and returned {o['n']} samples", replay)
+    # ---- model vs code
+    want_raise = rep.get("raise")
+    if want_raise is None and rep["convFails"]:
+        want_raise = "RuntimeError"
+    if count:
+        if "raise" in obs:
+            chk.branch("job-raise:" + obs["raise"])
+        else:
+            chk.branch(f"job-{method}-via-{obs['prim']}")
+            if case["its"]:
+                chk.branch("job-iterated")
+                if rep.get("takesKw") and any(it["ms"] is not None or it["sh"] is not None for it in case["its"]):
+                    chk.branch("job-iterated-conversion-own-limits")
+            if case["kw"]["ms"]:
+                chk.branch("job-keyword-max_samples")
+            if len(case["args"]) > (0 if obs["prim"] == "probs" else 1):
+                chk.branch("job-surplus-positional")
+            if rep.get("takesKw") and S is not None:
+                chk.branch("job-conversion-under-max_shots_per_call")
+        if obs.get("prim") is None:
+            chk.branch("job-no-primitive")
+    if obs.get("raise") != want_raise:
+        return ("broken", "job:model-vs-code", f"code {obs.get('raise', 'returns')}, model "
+                                               f"{want_raise or 'returns'}", replay)
+    if "raise" in rep:
+        return None
+    # the processor requests
+    keys = ("ms", "sh", "filter", "input", "noise", "params")
+    if rep["call"] is not None:
+        want_calls = [rep["call"]]
+        if len(obs["calls"]) != 1:
+            return ("broken", "job:model-vs-code", f"{len(obs['calls'])} processor requests, model 1", replay)
+        o, w = obs["calls"][0], rep["call"]
+        got = ({"kind": "samples", "ms": o["arg_ms"], "sh": o["arg_sh"]} if o["kind"] == "samples"
+               else {"kind": "probs", "sh": S})
+        if o["kind"] == "probs":
+            wantp = None if w.get("sh") is None else min(1e-6, 1 / w["sh"])
+            if o["precision"] != wantp:
+                return ("broken", "job:model-vs-code", f"processor.probs called with precision {o['precision']}, "
+                                                       f"model {wantp}", replay)
+        if got != w:
+            return ("broken", "job:model-vs-code", f"processor request: code {got}, model {w}", replay)
+    else:
+        if "raise" not in obs:
+            got = [{k: o[k] for k in keys} for o in obs["calls"]]
+            want = [dict(w) for w in rep["calls"]]
+            if obs["prim"] == "probs":
+                for g, w in zip(got, want):
+                    g["ms"] = w["ms"]
+            if got != want:
+                return ("broken", "job:model-vs-code", f"iterated requests: code {got}, model {want}", replay)
+            for o, w in zip(obs["calls"], rep["calls"]):
+                if o["kind"] == "samples" and (o["arg_ms"], o["arg_sh"]) != (w["ms"], w["sh"]):
+                    return ("broken", "job:model-vs-code", f"processor.samples called with ({o['arg_ms']}, "
+                                                           f"{o['arg_sh']}), model ({w['ms']}, {w['sh']})", replay)
+                if o["kind"] == "probs":
+                    wantp = None if w["sh"] is None else min(1e-6, 1 / w["sh"])
+                    if o["precision"] != wantp:
+                        return ("broken", "job:model-vs-code", f"processor.probs called with precision "
+                                                               f"{o['precision']}, model {wantp}", replay)
+            fin = {k: obs["final"][k] for k in keys}
+            if obs["prim"] == "probs":
+                fin["ms"] = rep["final"]["ms"]
+            if fin != rep["final"]:
+                return ("broken", "job:model-vs-code", f"configuration left behind: code {fin}, model "
+                                                       f"{rep['final']}", replay)
+    # the converter calls: keywords and, where the count is deduced from them, the exact total
+    if "raise" not in obs:
+        got_kw = [[entry_of(c["kw"], "max_samples"), entry_of(c["kw"], "max_shots")] for c in obs["conv"]]
+        if got_kw != rep["conv"]:
+            return ("broken", "job:model-vs-code", f"converter keywords: code {got_kw}, model {rep['conv']}", replay)
+        if any(set(c["kw"]) - {"max_samples", "max_shots"} for c in obs["conv"]):
+            return ("broken", "job:model-vs-code", f"converter keywords {obs['conv']}", replay)
+        if rep["takesKw"]:
+            for k, (c, n) in enumerate(zip(obs["conv"], rep["count"])):
+                if c["total"] != n:
+                    return ("violation" if n < c["total"] else "broken", "job:converted-total",
+                            f"{c['name']}(**{c['kw']}) handed back {c['total']} samples, the request is {n}", replay)
+    return None
+
+
+def gen_job_case(rng):
+    kind = rng.choice(["samples", "probs"])            # the backend: Clifford2017 (samples) or SLOS (probs)
+    natural = kind
+    cfg = {"ms": None, "sh": rng.choice([None, None, 1, 3, 7, 20]), "filter": rng.choice([0, 1]),
+           "input": rng.randrange(len(IT_INPUTS)), "noise": rng.choice([0, 0, 0, 1]),
+           "params": [rng.randrange(len(IT_PARAM_VALUES)) for _ in range(2)]}
+    method = rng.choice(["samples", "sample_count", "probs"])
+    its = []
+    if rng.random() < 0.35:
+        for _ in range(rng.choice([1, 2, 3])):
+            its.append({"ms": rng.choice([None, None, 2, 9]), "sh": rng.choice([None, None, 1, 4, 12]),
+                        "filter": rng.choice([None, None, 0, 1]), "input": rng.choice([None, None, 0, 1, 2]),
+                        "noise": None, "params": rng.choice([None, [[0, rng.randrange(4)], [1, rng.randrange(4)]]])})
+    r = rng.random()
+    vals = [0, 1, 5, 15, 40]
+    args = [] if r < 0.3 else [rng.choice(vals)] if r < 0.8 else [None] if r < 0.85 else \
+        [rng.choice(vals), rng.choice(vals)] if r < 0.93 else [rng.choice(vals) for _ in range(3)]
+    kw = {"ms": [], "sh": [], "other": rng.random() < 0.03}
+    if rng.random() < (0.5 if not args else 0.08):
+        kw["ms"] = [rng.choice(vals + [None])]
+    if rng.random() < 0.12:
+        kw["sh"] = [rng.choice([2, 6, None])]
+    avail = None
+    if rng.random() < 0.15:
+        avail = rng.choice([[], ["sample_count"], ["probs", "samples"], ["samples", "probs"],
+                            ["sample_count", natural], [natural, "sample_count"]])
+    case = {"kind": kind, "method": method, "cfg": cfg, "its": its, "as_list": rng.random() < 0.5, "args": args,
+            "kw": kw, "avail": avail, "max_samples": None}
+    # keep the job finite and cheap: a sampling request needs a limit (the documented RuntimeError is kept at a
+    # low rate), and 10000 shots through the Python loop only now and then
+    unlimited = kind == "samples" and cfg["sh"] is None and (
+        (method != "probs" and not args and not kw["ms"]) or (args[:1] == [None]) or kw["ms"] == [None])
+    if unlimited and rng.random() < 0.85:
+        cfg["sh"] = rng.choice([1, 3, 7, 20])
+    if kind == "samples" and method == "probs" and cfg["sh"] is None and (cfg["noise"] or cfg["filter"]) \
+            and rng.random() < 0.8:
+        cfg["sh"] = 20
+    return case
+
+
+def shrink_job(chk, case, sig):
+    cur = case
+    for _ in range(8):
+        cands = []
+        if cur["its"]:
+            cands += [dict(cur, its=cur["its"][:i] + cur["its"][i + 1:]) for i in range(len(cur["its"]))]
+        if cur["avail"] is not None:
+            cands.append(dict(cur, avail=None))
+        for k in ("ms", "sh"):
+            if cur["kw"][k]:
+                cands.append(dict(cur, kw=dict(cur["kw"], **{k: []})))
+        if cur["kw"]["other"]:
+            cands.append(dict(cur, kw=dict(cur["kw"], other=False)))
+        if cur["args"]:
+            cands.append(dict(cur, args=cur["args"][:-1]))
+        if cur["cfg"]["noise"]:
+            cands.append(dict(cur, cfg=dict(cur["cfg"], noise=0)))
+        if cur["cfg"]["filter"]:
+            cands.append(dict(cur, cfg=dict(cur["cfg"], filter=0)))
+        for c in cands:
+            try:
+                res = judge_job(chk, c, count=False)
+            except Exception:  # noqa: BLE001
+                res = None
+            if res is not None and res[1] == sig:
+                cur = c
+                break
+        else:
+            break
+    return cur
+
+
+def job_part(chk, n):
+    found = {}
+    for _ in range(n):
+        case = gen_job_case(chk.rng)
+        res = judge_job(chk, case)
+        chk.case(("J", json.dumps(case, sort_keys=True)), nontrivial=bool(case["args"] or case["kw"]["ms"]))
+        if res is not None and (res[0], res[1]) not in found:
+            small = shrink_job(chk, case, res[1])
+            res2 = judge_job(chk, small, count=False)
+            found[(res[0], res[1])] = res2 if res2 is not None and res2[1] == res[1] and res2[0] == res[0] else res
+    if any(k == "violation" for k, _sig in found):
+        found = {key: v for key, v in found.items() if key[0] == "violation"}
+    for v in found.values():
+        chk.fail(*v)
+
+
+# ================================================================================================
 # H. the emission table of ONE long-lived Source over a history of requests (one-slot cache)
 # ================================================================================================
 def source_history_part(chk, n_series):
@@ -4049,6 +4356,11 @@ def replay_one(chk, rp):
         chk.case(("G", "replay"), nontrivial=True)
         if res is not None:
             chk.fail(*res)
+    elif part == "job":
+        res = judge_job(chk, rp["case"])
+        chk.case(("J", "replay"), nontrivial=True)
+        if res is not None:
+            chk.fail(*res)
     elif part == "drawing":
         res = judge_drawing(chk, rp["case"])
         chk.case(("D", "replay"), nontrivial=True)
@@ -4135,6 +4447,11 @@ def run(chk: core.Check):
         "replay-threshold-detectors", "replay-physical-rejection", "replay-logical-rejection",
         "replay-heralded-modes-removed", "replay-heralded-modes-kept", "replay-stopped-by-shots",
         "replay-stopped-by-samples", "replay-shots-rescaled", "replay-vacuum-input",
+        "job-samples-via-samples", "job-samples-via-probs", "job-sample_count-via-samples",
+        "job-sample_count-via-probs", "job-probs-via-samples", "job-probs-via-probs", "job-iterated",
+        "job-iterated-conversion-own-limits", "job-keyword-max_samples", "job-surplus-positional",
+        "job-conversion-under-max_shots_per_call", "job-no-primitive", "job-primitive-choice-only",
+        "job-raise:RuntimeError", "job-raise:IndexError", "job-raise:AttributeError",
     ]
     chk.lean = core.LeanDriver("C09")
     rng = chk.rng
@@ -4176,6 +4493,7 @@ def run(chk: core.Check):
     timed("F exact replay of recorded draws", replay_part, chk, chk.pick(400, 3000))
     timed("G Sampler iterations", iterations_part, chk, chk.pick(250, 1500))
     timed("H one Source over a history of requests", source_history_part, chk, chk.pick(60, 400))
+    timed("J Sampler job glue (primitive, parameters, converter)", job_part, chk, chk.pick(220, 2500))
     # C
     timed("C limits", limits_part, chk, chk.pick(6, 24))
     timed("C2 Sampler on strong simulation", strong_part, chk, chk.pick(16, 60), chk.pick(60, 120))
